@@ -282,10 +282,21 @@ func (x *Exec) dumpLoad(op GenOp, lo *LogOp) {
 		_ = b.UnmarshalBinary(bbs[i])
 		lo.Codec = append(lo.Codec, [3]ecs.Entity{h, j, b})
 	}
+	// malformed binary input must be rejected with an error: every length 0..16 except 8, as a slice of its own and
+	// as a window into a larger buffer (spare capacity behind it); accepted: n resp. 100+n; panicked: 200+n resp. 300+n
 	for n := 0; n <= 16; n++ {
-		var e ecs.Entity
-		if e.UnmarshalBinary(make([]byte, n)) == nil {
-			lo.BinOK = append(lo.BinOK, n)
+		for k, buf := range [][]byte{make([]byte, n), make([]byte, 32)[4 : 4+n]} {
+			func() {
+				defer func() {
+					if r := recover(); r != nil {
+						lo.BinOK = append(lo.BinOK, 200+100*k+n)
+					}
+				}()
+				var e ecs.Entity
+				if e.UnmarshalBinary(buf) == nil {
+					lo.BinOK = append(lo.BinOK, 100*k+n)
+				}
+			}()
 		}
 	}
 }
